@@ -1589,9 +1589,6 @@ function droppedKeys(
     }
     return acc;
   }
-  if (input instanceof Date || ArrayBuffer.isView(input)) {
-    return acc;
-  }
   for (const k of Object.keys(input)) {
     if (acc.length >= limit) {
       break;
